@@ -190,6 +190,15 @@ def run_C02(ctx):
         a, b = gen.structured_pair(ctx.rng, 30)
         pairs.append((a, b, None, "S"))
     C.evaluate(ctx, "capture-deadline-every-k", capture_with_deadlines(ctx, pairs), rel)
+    # the op list stored in a text diff: small texts, both sides of the 100-token switch, builder deadlines
+    cases = []
+    for o, n in text_pairs(ctx, tiered(ctx, 150, 1500), invalid=False):
+        for alg in ALGS:
+            cases.append((ctx.rng.choice(TOKS_DIFF), alg, ctx.rng.choice(["str", "bytes"]), None, "-", o, n))
+            ctx.count("textdiff:small")
+    cases.extend(threshold_text_cases(ctx))
+    cases.extend(threshold_deadline_cases(ctx))
+    C.evaluate(ctx, "textdiff-ops", textdiff_lines(ctx, cases), rel, nontrivial=nontrivial_text, cap=60)
 
 
 SPECS["C02"] = dict(
@@ -203,7 +212,9 @@ SPECS["C02"] = dict(
     run=run_C02,
     generators="capture component (capture_diff_deadline + get_diff_ratio): the exhaustive small worlds of C01 with all "
                "sub-ranges; structured random pairs; and for every binary pair up to length 3/4 and random pairs up to "
-               "length 30 every deadline expiry point k = 0..#probes",
+               "length 30 every deadline expiry point k = 0..#probes; TextDiff::ops on small texts, on both sides of the "
+               "100-token switch and under builder deadlines expiring at probe 0, 1, 3 (identical texts, pure insertions, "
+               "deletions, appends, empty sides)",
 )
 
 
@@ -317,6 +328,8 @@ def run_C07(ctx):
                 td.append((tok, alg, "str", dl, "-", o, n, via))
                 ctx.count("textdiff:deadline-plumbing")
     C.evaluate(ctx, "textdiff-deadline", textdiff_lines(ctx, td), rel, nontrivial=nontrivial_text)
+    C.evaluate(ctx, "textdiff-deadline-threshold", textdiff_lines(ctx, threshold_deadline_cases(ctx)), rel,
+               nontrivial=nontrivial_text, cap=60)
     # the deadline VALUE that reaches the algorithm (hook: last value passed to deadline_exceeded): an absolute
     # deadline arrives unchanged through every entry point; a timeout is counted from the start of the diff,
     # also when the builder was configured earlier, reused or cloned
@@ -464,6 +477,7 @@ def run_C09(ctx):
             cases.append((ctx.rng.choice(TOKS_DIFF), alg, ctx.rng.choice(["str", "bytes"]), None, "-", o, n))
             ctx.count("textdiff:small")
     cases.extend(threshold_text_cases(ctx))
+    cases.extend(threshold_deadline_cases(ctx))
     C.evaluate(ctx, "textdiff-ops", textdiff_lines(ctx, cases), rel, nontrivial=nontrivial_text, cap=60)
 
 
@@ -977,6 +991,33 @@ def threshold_text_cases(ctx):
             cases.append(("lines", alg, ctx.rng.choice(["str", "bytes"]), None, "-", ot, nt))
             ctx.count("textdiff:insertion-before-matching-tail")
     return cases
+
+
+def threshold_deadline_cases(ctx):
+    """text diffs on both sides of the 100-token switch under a builder deadline that expires at probe 0, 1 or 3:
+    identical texts, pure insertions / deletions / appends, empty sides, and the threshold families"""
+    out = []
+    base = []
+    for n in (60, 101, 130):
+        lines = [b"l%d" % ctx.rng.randrange(40) for _ in range(n)]
+        t = b"".join(x + b"\n" for x in lines)
+        k = ctx.rng.randrange(1, n)
+        ins = b"".join(b"new%d\n" % i for i in range(ctx.rng.randrange(1, 4)))
+        cut = b"".join(x + b"\n" for x in lines[:k])
+        rest = b"".join(x + b"\n" for x in lines[k:])
+        base += [(t, t), (t, cut + ins + rest), (cut + ins + rest, t), (t, t + ins), (t + ins, t), (ins + t, t),
+                 (b"", t), (t, b""), (t, cut + b"changed\n" + rest)]
+    for o, n in base:
+        for alg in ALGS:
+            for dl in (0, 1, 3):
+                out.append(("lines", alg, ctx.rng.choice(["str", "bytes"]), dl, "-", o, n, ctx.rng.choice(["deadline", "timeout"])))
+                ctx.count("textdiff:deadline-around-threshold")
+    th = threshold_text_cases(ctx)
+    ctx.rng.shuffle(th)
+    for c in th[:tiered(ctx, 60, 600)]:
+        out.append(tuple(c[:3]) + (ctx.rng.choice([0, 1, 3]),) + tuple(c[4:7]) + ("deadline",))
+        ctx.count("textdiff:deadline-around-threshold")
+    return out
 
 
 def run_C14(ctx):
